@@ -206,6 +206,7 @@ func lookup(opts [][2]string, key string) (string, bool) {
 }
 
 func checkAddr(path string, a router_address.RouterAddress, c Case, r *ev.Rec) error {
+	r.Eval() // one oracle evaluation per path (constructor, parser)
 	host, hasHost := lookup(c.Opts, "host")
 	port, hasPort := lookup(c.Opts, "port")
 	caps, hasCaps := lookup(c.Opts, "caps")
@@ -411,7 +412,7 @@ func genCase(t *rapid.T) Case {
 	return c
 }
 
-var prop = &ev.Prop[Case]{Sub: "accessors", Quick: 40000, Thorough: 2000000, Gen: genCase, Check: check}
+var prop = &ev.Prop[Case]{Sub: "accessors", Quick: 160000, Thorough: 2000000, Gen: genCase, Check: check}
 
 func TestRegress(t *testing.T) { prop.Regress(t) }
 func TestReplay(t *testing.T)  { prop.Replay(t) }
